@@ -51,6 +51,7 @@ type PipeResult struct {
 	LogGates    int
 	OutGates    int
 	MaxReadsWhileLogPending int
+	ReadCallsAtRet int    // Read calls begun by the time the call returned
 	LateWrites     int    // writes to the caller's writers that began after the call had returned
 	RawLogAtReturn string // RawLog runs: the log as the caller saw it at the moment of return
 }
@@ -220,7 +221,16 @@ func RunPipe(t *testing.T, sc *Scenario, capture bool, record bool) *PipeResult 
 					res.Blocks, res.Binding, res.Err = bcl.InterpretFile(f, opts...)
 				case "UnmarshalFile":
 					tg := &UTarget{}
-					res.Err = bcl.UnmarshalFile(f, tg, opts...)
+					switch sc.Int("target", 0) {
+					case 1:
+						res.Err = bcl.UnmarshalFile(f, nil, opts...) // a useless target does not excuse the file handling
+					case 2:
+						res.Err = bcl.UnmarshalFile(f, UTarget{}, opts...)
+					case 3:
+						res.Err = bcl.UnmarshalFile(f, 42, opts...)
+					default:
+						res.Err = bcl.UnmarshalFile(f, tg, opts...)
+					}
 					res.Target = tg
 				default:
 					res.Prog, res.Err = bcl.ParseFile(f, opts...)
@@ -236,6 +246,7 @@ func RunPipe(t *testing.T, sc *Scenario, capture bool, record bool) *PipeResult 
 					for _, g := range s.Pending() {
 						res.PendAtRet = append(res.PendAtRet, g.String())
 					}
+					res.ReadCallsAtRet = f.Stats().ReadCalls
 				}
 				fst := f.Stats()
 				if res.CloseStep < 0 && fst.Closes > 0 {
